@@ -93,6 +93,13 @@ class World:
         fields = self.src.struct_fields(sname)
         return sv.fields[fields.index(fname)]
 
+    def deletion_query(self, previous_mdates=None, **kw):
+        """DeletionQuery, tolerant of the field added by the C09 repair"""
+        fields = self.src.struct_fields('DeletionQuery')
+        if 'updated_nodes_previous_mdate' in fields:
+            kw['updated_nodes_previous_mdate'] = VecV([Cell(x) for x in (previous_mdates or [])])
+        return self.struct('DeletionQuery', **kw)
+
     def opt(self, v):
         return none() if v is None else some(v)
 
@@ -285,7 +292,7 @@ class Concretizer:
         lit = V._intern_rev.get(v)
         if lit is not None:
             return lit.decode('latin1')
-        return '%s#%d' % (kind, v)
+        return 'sym#%d' % v
 
     def int(self, i):
         if i.concrete:
